@@ -670,9 +670,14 @@ val remove_item_loop : tcfg -> nat -> nat -> z -> z -> elem -> elem option m
 
 val remove_item : tcfg -> nat -> elem -> elem option m
 
-val repeat_m : nat -> unit m -> unit m
-
 val small : z -> nat
+
+val uadd : tcfg -> z -> z -> z m
+
+val resize_loop :
+  tcfg -> (z -> z option) -> nat -> nat -> elem -> z -> z -> unit m
+
+val resize_body : tcfg -> (z -> z option) -> nat -> z -> elem -> unit m
 
 val resize : tcfg -> (z -> z option) -> nat -> z -> elem -> unit m
 
@@ -699,8 +704,6 @@ val building : tcfg -> nat -> unit m -> unit m
 val from_iter : tcfg -> (z -> z option) -> nat -> answer list -> answer list m
 
 val from_slice : tcfg -> (z -> z option) -> nat -> elem list -> unit m
-
-val uadd : tcfg -> z -> z -> z m
 
 val clone_go :
   tcfg -> (z -> z option) -> nat -> nat -> nat -> z -> z -> unit m
